@@ -569,7 +569,43 @@ func genRegexScenario(r *rng, cold bool) *Scenario {
 	return sc
 }
 
+// genLazyScenario: pre-compiled shared Callables whose programs call user-registered LAZY
+// functions (thunks, thunks inside thunks, call-backs into the library), invoked by every
+// task on environments of equal types and different contents.
+var lazySrcs = []string{
+	"when(b, tr(n), tr(x)) + when(!b, nest(1), inc(2))",
+	"when(n > 1, when(b, tr(\"aa\"), tr(\"ab\")), tr(s))",
+	"orelse(tr(b), tr(l[0] > 100)) && orelse(n > 5, nest(n) > 0)",
+	"[when(b, l, [n]), when(orelse(b, false), [x], l)]",
+	"when(orelse(n > x, b), {a: tr(n), b: when(b, s, \"z\")}, {a: nest(x), b: s})",
+	"first(when(b, l, [inc(n)]), when(b, 0, 1)) + len(when(!b, ls, [s]))",
+}
+
+func genLazyScenario(r *rng) *Scenario {
+	sc := &Scenario{ColdFirst: r.chance(0.5)}
+	sc.Shared = []EngineSpec{{pickBackend(r), true}}
+	np := 2 + r.intn(2)
+	for i := 0; i < np; i++ {
+		sc.Pre = append(sc.Pre, PreCompile{0, Prog{lazySrcs[r.intn(len(lazySrcs))], []string{"map", "struct"}[r.intn(2)], true, false}})
+	}
+	k := 2 + r.intn(3)
+	envs := []string{"map", "struct", "map2", "struct2", "map3", "struct3"}
+	for t := 0; t < k; t++ {
+		var ops []Op
+		n := 1 + r.intn(4)
+		for j := 0; j < n; j++ {
+			ops = append(ops, Op{K: "invoke", C: r.intn(np), CS: true, Env: envs[r.intn(len(envs))], EnvSh: r.chance(0.3)})
+		}
+		sc.Tasks = append(sc.Tasks, ops)
+	}
+	sc.Sim = genSimConfig(r)
+	return sc
+}
+
 func genScenario(r *rng, cold bool) *Scenario {
+	if !cold && r.chance(0.08) {
+		return genLazyScenario(r)
+	}
 	if r.chance(0.12) {
 		return genTimeScenario(r, cold)
 	}
